@@ -169,7 +169,7 @@ def run(res, tier):
         res.instance("C09.1.no-source-result-slot", fn["qname"], facts.loc(call), "source slots: %s" % [s.get("accessor", s.get("kind")) for s in src])
         if bad or len(slots) != len(roles):
             res.violation("C09.1.no-source-result-slot", tbf.rel(facts.path_of(call)), fn["qname"], "P2PTsm", call["l"][1], "the one-sided near-field call hands the kernel a source-result handle")
-    if tier == "thorough":
+    if tier in ("quick", "thorough"):      # the Specx / StarPU executors (declaration stubs) are analysed on every run: the unit tests never compile them, so nothing else would notice a change there
         sf = tbf.scan("specx")
         res.units.append("umbrella TU 'specx' (declaration stub): TbfSmSpecxAlgorithmTsm")
         who_may_call(sf, "TbfSmSpecxAlgorithmTsm", res)
